@@ -8,6 +8,8 @@
 //!   anysim list-worlds
 //!   anysim selftest-determinism <prop> <n>
 
+#[cfg(feature = "alloc")]
+mod probe;
 mod world_table;
 
 use simcore::exec::{self, Class, ExecOpts, RunReport, Violation, PROBE_NAMES};
@@ -723,6 +725,86 @@ fn c19_differential(prop: &str, tier: &str, reported: &mut Vec<(String, String, 
     )
 }
 
+/// C18: capacity requests at the overflow boundaries, one per sub-process.
+#[cfg(feature = "alloc")]
+fn c18_probes(tier: &str, workdir: &str, reported: &mut Vec<(String, String, String)>, known: &[Known], known_hit: &mut Vec<(String, String)>) -> String {
+    let exe = std::env::current_exe().unwrap();
+    let mut total = 0u64;
+    let mut panicked = 0u64;
+    let mut aborted_valid = 0u64;
+    let mut returned = 0u64;
+    let mut invalid = 0u64;
+    let mut other = 0u64;
+    let mut first_invalid: BTreeMap<String, String> = BTreeMap::new();
+    let kinds: &[(&str, usize)] = &[("with_capacity", 0), ("reserve", 0), ("reserve", 3), ("reserve_exact", 0), ("reserve_exact", 3)];
+    let mut jobs: Vec<(String, String, usize, usize)> = Vec::new();
+    for (name, size, align) in probe::PROBE_ELEMS.iter() {
+        let mut vals = probe::boundary_values(*size, *align);
+        if tier != "thorough" {
+            // quick: every other value, boundaries themselves always
+            let keep: Vec<usize> = vals.iter().enumerate().filter(|(i, _)| i % 2 == 0).map(|(_, v)| *v).collect();
+            vals = keep;
+        }
+        for (kind, prefill) in kinds {
+            for v in &vals {
+                jobs.push((name.to_string(), kind.to_string(), *v, *prefill));
+            }
+        }
+    }
+    // 16 at a time
+    let mut i = 0;
+    while i < jobs.len() {
+        let chunk = &jobs[i..(i + 16).min(jobs.len())];
+        let mut kids = Vec::new();
+        for (k, (name, kind, n, prefill)) in chunk.iter().enumerate() {
+            let bb = format!("{}/probe-bb-{}", workdir, k);
+            let c = std::process::Command::new(&exe)
+                .args(["probe", name, kind, &n.to_string(), &prefill.to_string(), &bb])
+                .stdout(std::process::Stdio::piped())
+                .stderr(std::process::Stdio::null())
+                .spawn()
+                .unwrap_or_else(|e| die2(&format!("spawn probe: {}", e)));
+            kids.push((c, bb, name.clone(), kind.clone(), *n, *prefill));
+        }
+        for (c, bb, name, kind, n, prefill) in kids {
+            let o = c.wait_with_output().unwrap_or_else(|e| die2(&format!("wait probe: {}", e)));
+            total += 1;
+            let rec = simcore::blackbox::read(&bb).unwrap_or_default();
+            let out = String::from_utf8_lossy(&o.stdout).to_string();
+            if rec.alloc_code == simcore::simalloc::V_INVALID_LAYOUT {
+                invalid += 1;
+                let sig = format!("invalid-layout/{}", kind);
+                first_invalid.entry(sig).or_insert(format!("{} {}({}) after {} pushes: allocator received size={} align={}", name, kind, n, prefill, rec.a, rec.b));
+            } else if o.status.success() && out.starts_with("panicked") {
+                panicked += 1;
+            } else if o.status.success() && out.starts_with("returned") {
+                returned += 1;
+            } else if o.status.code().is_none() || o.status.code() == Some(134) {
+                aborted_valid += 1;
+            } else {
+                other += 1;
+            }
+        }
+        i += 16;
+    }
+    for (sig, detail) in first_invalid {
+        if let Some(k) = known.iter().find(|k| k.prop == "C18" && k.sig == sig) {
+            known_hit.push((k.sig.clone(), k.text.clone()));
+            continue;
+        }
+        let path = format!("{}/replays/C18-{}.replay", VERIF, sig.replace('/', "-"));
+        std::fs::write(&path, format!("anysim-probe v1\nproperty C18\n# {}\n# re-run: anysim probe <elem> <kind> <n> <prefill> <blackbox file>\nexpect {}\n", detail, sig)).ok();
+        reported.push((sig, path, detail));
+    }
+    if other > 0 {
+        die2("a boundary probe ended in an unexpected way");
+    }
+    format!(
+        "    \"boundary_probes\": {{\"requests\": {}, \"panicked\": {}, \"aborted_after_valid_layout\": {}, \"returned\": {}, \"invalid_layout_reached_allocator\": {}, \"note\": \"one capacity request per sub-process at isize::MAX / usize::MAX boundaries; F12 (allocator refuses) fires for every valid-but-absurd request\"}},\n",
+        total, panicked, aborted_valid, returned, invalid
+    )
+}
+
 fn check(prop: &str, tier: &str) -> i32 {
     let prof = match profile(prop) {
         Some(p) => p,
@@ -989,6 +1071,10 @@ fn check(prop: &str, tier: &str) -> i32 {
         reported.push((sig, path, why.clone()));
     }
 
+    #[cfg(feature = "alloc")]
+    let probe_json = if prop == "C18" { c18_probes(tier, &workdir, &mut reported, &known, &mut known_hit) } else { String::new() };
+    #[cfg(not(feature = "alloc"))]
+    let probe_json = String::new();
     let extra_json = if prop == "C19" { c19_differential(prop, tier, &mut reported, &infos) } else { String::new() };
 
     // evidence
@@ -1044,6 +1130,7 @@ fn check(prop: &str, tier: &str) -> i32 {
     ev.push_str("    \"components\": {\"real\": [\"any_vec (all of /repo/src, rebuilt from the working tree)\", \"mem::Heap\", \"mem::Stack\", \"mem::StackN\"], \"simulated\": [\"user-defined back end SimMem/SimBuilder\", \"global allocator SimAlloc\", \"element types with Drop/Clone fuses\", \"replacement iterators\", \"client issuing API calls\", \"placement arena\"], \"model\": [\"Vec<tag> per vector + ownership ledger\"]},\n");
     ev.push_str(&format!("    \"engine\": {},\n", json_str(if cfg!(debug_assertions) { "native, checked profile (debug assertions + overflow checks)" } else { "native, release-like profile" })));
     ev.push_str(&extra_json);
+    ev.push_str(&probe_json);
     ev.push_str("    \"exhaustive\": false\n");
     ev.push_str("  },\n");
     ev.push_str("  \"assumptions\": [\"sampling of histories, not proof\", \"guard zones / poison / quarantine detect out-of-bounds and stale accesses only when they land on instrumented bytes or surface in a result\", \"the Vec-of-tags model and the harness adapter are trusted\", \"rustc/LLVM and the release-like profile used to build the library\"],\n");
@@ -1191,6 +1278,15 @@ fn main() {
                 vs.get(variant - 1).cloned().unwrap_or_else(|| die2("no such variant"))
             };
             print!("{}", scn::to_text(&s, &name, prop, "crash", ""));
+        }
+        #[cfg(feature = "alloc")]
+        "probe" => {
+            // probe <elem> <kind> <n> <prefill> <blackbox>
+            simcore::registry::install_hook();
+            simcore::blackbox::open(&args[5]);
+            simcore::blackbox::note_run(0, 0, 1, 0);
+            let code = probe::run(&args[1], &args[2], args[3].parse().unwrap(), args[4].parse().unwrap());
+            std::process::exit(code);
         }
         "list-worlds" => {
             for w in world_infos() {
